@@ -303,6 +303,25 @@ func hostile(p plan, n int, port, tport int, rng *rand.Rand, hs *hostileStats) {
 			}
 		}
 		hs.hold(t.c)
+	case "lurker":
+		// a logged-in client that gives itself odd user info (icon of 0 / 1 / 3 / 4 bytes, empty or very long name,
+		// one-byte options) and then just stays: every later user list, chat join or info request of the others
+		// has to serialise that entry
+		t, err := loginTCP(src, port, "guest", "", "lurker")
+		if err != nil {
+			atomic.AddInt64(&hs.failedDial, 1)
+			return
+		}
+		icon := [][]byte{{}, {7}, {0, 0, 7}, {0, 0, 0, 7}, {0, 7}, {0, 7}, {0, 7}}[p.Val%7]
+		name := [][]byte{[]byte("lurk"), []byte("lurk"), []byte("lurk"), []byte("lurk"), {}, bytes.Repeat([]byte("n"), 300), []byte("lurk")}[p.Val%7]
+		opts := sim.U16(0)
+		if p.Val%7 == 6 {
+			opts = []byte{1}
+		}
+		t.id++
+		_, _ = t.c.Write(sim.NewTx(sim.TSetClientUserInfo, t.id, sim.Fld(sim.FUserName, name), sim.Fld(sim.FUserIconID, icon), sim.Fld(sim.FOptions, opts)).Encode())
+		drain(t.c, 100*time.Millisecond)
+		hs.hold(t.c)
 	case "scan":
 		// a port scan of the transfer port (preambles with reference numbers nobody was given) while logged-in
 		// clients of the same peer request downloads at full speed: lookups and registrations in the transfer
@@ -528,7 +547,7 @@ func runParent(args []string) error {
 	}
 	rng := rand.New(rand.NewSource(*seed))
 	muts := []string{"trunc", "total", "datasz", "count", "flen", "dropfield", "shortid", "garbage", "badhs", "size", "dup"}
-	sess := []string{"ctl", "ctl", "adm", "adm", "scan", "prelogin", "upload", "download", "fupload", "fdownload"}
+	sess := []string{"ctl", "ctl", "adm", "adm", "scan", "lurker", "prelogin", "upload", "download", "fupload", "fdownload"}
 	plans = append([]plan{{Sess: "nonreader", Mut: "none", Val: 0}, {Sess: "nonreader", Mut: "none", Val: 1}}, plans...)
 	for i := 0; i < *fuzz; i++ {
 		plans = append(plans, plan{Sess: sess[rng.Intn(len(sess))], Frame: 1 + rng.Intn(24), Mut: muts[rng.Intn(len(muts))], Val: rng.Intn(9)})
@@ -553,7 +572,15 @@ func runParent(args []string) error {
 	go func() {
 		sc := bufio.NewScanner(stdout)
 		sc.Buffer(make([]byte, 1<<20), 1<<24)
+		var dbg *os.File
+		if p := os.Getenv("VERIF_CHILD_STDOUT"); p != "" {
+			dbg, _ = os.Create(p)
+			defer dbg.Close()
+		}
 		for sc.Scan() {
+			if dbg != nil {
+				fmt.Fprintln(dbg, sc.Text())
+			}
 			if strings.HasPrefix(sc.Text(), "PORTS ") {
 				fmt.Sscanf(sc.Text(), "PORTS %d %d", &port, &tport)
 				portsCh <- true
@@ -592,7 +619,11 @@ func runParent(args []string) error {
 			s.inbox = nil
 			evs = append(evs, map[string]any{"op": "probe", "run": 1, "tag": tag, "sentinel": i + 1, "ok": err == nil, "ms": time.Since(t0).Milliseconds()})
 		}
-		// the transfer port serves the well-behaved too: a sentinel downloads a small file through it
+		// the transfer port serves the well-behaved too: a sentinel downloads a small file through it (not at the very
+		// end: the transfer handler keeps its counter up for three more seconds, which would spoil the final baseline)
+		if tag == "quiescent" {
+			return
+		}
 		t0 := time.Now()
 		ok := false
 		if rep, err := s2.request(sim.Patience(10*time.Second), sim.TDownloadFile, sim.Fld(sim.FFileName, []byte("file.txt"))); err == nil && rep.Err == 0 {
